@@ -18,6 +18,16 @@ CHECKS = {
    note='Trusted: R-SUB (mc/ref/rsub.py, 200 lines) in its literal and liberal readings; exactness judged only where both '
         'agree. Tables with >2 generic classes in a chain, >2 parameters, depth >2 are not covered.',
    technique='small-scope exhaustive enumeration of class tables x type pairs against a reference relation'),
+ 'C07': dict(engine='SSE+HBFS+CTE', category='model_checking', design_ref='5 C07',
+   text='(a) every instantiation new(args) over the SSE tables (plain/projected/star/nested arguments) is compared, '
+        'transitively up the hierarchy, with a reference substitution of the declared supertypes; empty-map identity and '
+        'ground-map closure of substitute_type. (b) explicit-state search over all histories of length <=2 (thorough 3) of '
+        'new / substitute_type / to_variance_free / to_type_variable_free / get_supertypes / is_subtype / get_type / '
+        'find_subtypes on SHARED type objects: after every step all earlier objects and results keep their by-value '
+        'snapshot. (c) receiver and arguments of every new()/substitute_type call of explored pipeline executions are '
+        'pickled before and after.',
+   note='Trusted: reference substitution on terms, reflective snapshots. The aliasing alphabet is one fixed pool of 15 shared objects.',
+   technique='explicit-state search over operation histories on shared objects + small-scope enumeration against a reference substitution'),
  'C08': dict(engine='SSE+inner-DFS', category='model_checking', design_ref='5 C08',
    text='For every input of a small-scope universe (9 generic declarations incl. dependent/parameterized/variant bounds x '
         '4-5 pools incl. abstract classes, bare constructors, primitives x 6-9 pre-assignments x 5 variance maps x 4 switch '
@@ -104,7 +114,7 @@ ENGINES = [
   'kind_free_text': 'stateless deviation-bounded explorer of the choice tree of the real pipeline (ChoiceSource replaces src.utils.random.r)'},
  {'name': 'exhaustive-graphs', 'path': 'mc/props/c19.py', 'serves_properties': ['C19'],
   'kind_free_text': 'enumeration of all digraphs up to 4 (5) vertices'},
- {'name': 'SSE', 'path': 'mc/universe.py', 'serves_properties': ['C06', 'C09', 'C10'],
+ {'name': 'SSE', 'path': 'mc/universe.py', 'serves_properties': ['C06', 'C07', 'C09', 'C10'],
   'kind_free_text': 'small-scope enumeration of class tables (skeleton grammar) and types built through the real constructors'},
  {'name': 'inner-DFS', 'path': 'mc/inner.py', 'serves_properties': ['C08', 'C09'],
   'kind_free_text': 'complete enumeration of the random-choice tree of one helper call'},
